@@ -99,6 +99,14 @@ let g3_params spec =
       g_blackis1 = (bi1 = "1"); g_ignore_eob = (ieob = "1"); g_maxrows = nat_of_int (int_of_string mr) }
   | _ -> failwith "bad g3 parameters"
 
+(* g4:<cols>:<align>:<blackis1>:<ignore_eob>:<maxrows>   (CCITTFax, K < 0) *)
+let g4_params spec =
+  match Stdlib.String.split_on_char ':' spec with
+  | [_; cols; al; bi1; ieob; mr] ->
+    { CCITT.g_cols = n_of_int (int_of_string cols); g_eol = false; g_align = (al = "1");
+      g_blackis1 = (bi1 = "1"); g_ignore_eob = (ieob = "1"); g_maxrows = nat_of_int (int_of_string mr) }
+  | _ -> failwith "bad g4 parameters"
+
 let starts_with p s =
   Stdlib.String.length s >= Stdlib.String.length p && Stdlib.String.sub s 0 (Stdlib.String.length p) = p
 
@@ -120,6 +128,7 @@ let decode id codec data =
     let (c, b, n, _, rowlen) = geometry s in
     show_res id (Predict.tiff_dec (nat_of_int c) (n_of_int b) (nat_of_int n) (nat_of_int rowlen) data)
   | s when starts_with "g3:" s -> show_res id (CCITT.g3_dec (g3_params s) data)
+  | s when starts_with "g4:" s -> show_res id (CCITT2D.g4_dec (g4_params s) data)
   | _ -> Printf.printf "%s badcodec\n" id
 
 let encode id codec data tags =
@@ -137,6 +146,7 @@ let encode id codec data tags =
       let (c, b, n, _, rowlen) = geometry s in
       Predict.tiff_enc (nat_of_int c) (n_of_int b) (nat_of_int n) (nat_of_int rowlen) data
     | s when starts_with "g3:" s -> CCITT.g3_enc (g3_params s) data
+    | s when starts_with "g4:" s -> CCITT2D.g4_enc (g4_params s) data
     | _ -> failwith "bad codec"
   in
   Printf.printf "%s enc %s\n" id (hex_of_bytes out)
